@@ -483,7 +483,7 @@ Definition ex_valid : config := {|
                        nt_server := 0; nt_port := 0; nt_from := 0; nt_to := 0; nt_auth := AuthNone |} ];
   cfg_cluster := []; cfg_consumer := []; cfg_profiles := []; cfg_sasl := []; cfg_tls := []; cfg_files := [14];
   regex_ok := all_ok; template_ok := fun s => s =? 14; hostport_ok := all_ok; listen_ok := all_ok; zkpath_ok := all_ok;
-  zkcons_ok := all_ok; kversion_ok := all_ok; mail_ok := fun _ _ => true; keypair_ok := fun _ _ => true; ca_pem_ok := all_ok;
+  zkroot_trivial := fun s => s =? 12; zkcons_ok := all_ok; kversion_ok := all_ok; mail_ok := fun _ _ => true; keypair_ok := fun _ _ => true; ca_pem_ok := all_ok;
   reachable := fun _ => false |}.
 
 (* the same with an allowlist that does not compile (a PanicZap) *)
@@ -494,7 +494,7 @@ Definition ex_bad_regex : config := {|
   cfg_notifier := cfg_notifier ex_valid; cfg_cluster := []; cfg_consumer := []; cfg_profiles := []; cfg_sasl := [];
   cfg_tls := []; cfg_files := [14];
   regex_ok := fun s => negb (s =? 7); template_ok := template_ok ex_valid; hostport_ok := all_ok; listen_ok := all_ok;
-  zkpath_ok := all_ok; zkcons_ok := all_ok; kversion_ok := all_ok; mail_ok := fun _ _ => true;
+  zkpath_ok := all_ok; zkroot_trivial := fun s => s =? 12; zkcons_ok := all_ok; kversion_ok := all_ok; mail_ok := fun _ _ => true;
   keypair_ok := fun _ _ => true; ca_pem_ok := all_ok; reachable := fun _ => false |}.
 
 (* the same with a negative queue depth (an `error` panic value: the old handler's type assertion fails) *)
@@ -506,8 +506,27 @@ Definition ex_bad_depth : config := {|
   cfg_notifier := cfg_notifier ex_valid; cfg_cluster := []; cfg_consumer := []; cfg_profiles := []; cfg_sasl := [];
   cfg_tls := []; cfg_files := [14];
   regex_ok := all_ok; template_ok := template_ok ex_valid; hostport_ok := all_ok; listen_ok := all_ok;
-  zkpath_ok := all_ok; zkcons_ok := all_ok; kversion_ok := all_ok; mail_ok := fun _ _ => true;
+  zkpath_ok := all_ok; zkroot_trivial := fun s => s =? 12; zkcons_ok := all_ok; kversion_ok := all_ok; mail_ok := fun _ _ => true;
   keypair_ok := fun _ _ => true; ca_pem_ok := all_ok; reachable := fun _ => false |}.
+
+(* ex_valid without zookeeper.root-path: the default "/burrow" has to be created on the (unreachable) ensemble *)
+Definition ex_default_root : config := {|
+  cfg_notifier_table := cfg_notifier_table ex_valid;
+  cfg_zk_servers := cfg_zk_servers ex_valid; cfg_zk_root := None; cfg_zk_tls := None;
+  cfg_storage := cfg_storage ex_valid; cfg_evaluator := cfg_evaluator ex_valid; cfg_http := cfg_http ex_valid;
+  cfg_notifier := cfg_notifier ex_valid; cfg_cluster := []; cfg_consumer := []; cfg_profiles := []; cfg_sasl := [];
+  cfg_tls := []; cfg_files := [14];
+  regex_ok := all_ok; template_ok := template_ok ex_valid; hostport_ok := all_ok; listen_ok := all_ok;
+  zkpath_ok := all_ok; zkroot_trivial := fun s => s =? 12; zkcons_ok := all_ok; kversion_ok := all_ok; mail_ok := fun _ _ => true;
+  keypair_ok := fun _ _ => true; ca_pem_ok := all_ok; reachable := fun _ => false |}.
+
+(* a valid configuration whose first subsystem fails at START time: accepted (flag set), Start returns 1, and only the
+   zookeeper coordinator's Start was entered *)
+Example ex_default_root_start_failure :
+  requirements ex_default_root = [] /\
+  start (canonical_order ex_default_root) ex_default_root fresh_app = Returned 1 [CZookeeper] /\
+  config_valid (canonical_order ex_default_root) ex_default_root fresh_app = true.
+Proof. vm_compute. repeat split. Qed.
 
 Example ex_valid_accepted :
   requirements ex_valid = [] /\
